@@ -26,6 +26,24 @@ PROPS = {
         "timeout": 1500,
         "timeout_thorough": 3600,
     },
+    "C30": {
+        "harness": None,
+        "runner": "checklib/run/sched_run.py",
+        "gen": ["sched_diag"],
+        "pre": ["sched_build_ls"],
+        "level": "proof",
+        "level_text": "Kernel-checked theorem about the SchedDiag model (main loop handling edits/removals in order; add_diagnostic_task = cancel stored token, store a fresh token, spawn; the task wakes at an arbitrary time or exits when cancelled, diagnoses the current text and publishes under the analysis read lock, removes the map entry; other under-lock publishers at any time): for every event list and every schedule, at quiescence the last publication of every file is the diagnosis of the text analysed now and a removed file ends with the empty set. Counter-schedule theorems (decide) show that publishing outside the lock or not replacing the token breaks it. The two mechanisms and the update-then-schedule order are re-extracted from file_diagnostic.rs / the handlers on every run; sessions against the real server compare the last publishDiagnostics per file with a fresh pull diagnosis. Partial: real timers and cross-file dependencies of diagnoses are not modelled.",
+        "level_note": "Partial by nature: debounce = 'fires at any time after the spawn or is cancelled'; diagnosis is a function of one file's text (sessions are judged on self-contained files only); workspace-wide diagnostic tasks are the generic under-lock publisher. Trusted: Lean kernel, the structural extractor for the two mechanisms, the stdio client.",
+        "trusted_base": SCHED_TB,
+        "assumptions": [
+            "the diagnosis of a file depends on that file's analysed text only (self-contained files)",
+            "document notifications are handled inline in message order (C27)",
+            "a publication made while holding the analysis read lock is ordered with the writes to the analysis",
+        ],
+        "technique": "invariant (settled / owed by the main loop / witnessed by a live un-cancelled task) preserved by every step; decide'd counter-schedules for the weakened configurations; T-src mechanism flags; oracle sessions",
+        "timeout": 1500,
+        "timeout_thorough": 3600,
+    },
     "C28": {
         "harness": None,
         "runner": "checklib/run/sched_run.py",
